@@ -45,6 +45,7 @@ func (d *decProp) Gen(kind string, idx int64, seed int64, tier string) core.Case
 	}
 	r := core.Rand(s, d.id, kind, idx)
 	dc := d.genC(r, kind, idx, tier)
+	dc.Rich = dc.SUT == "decoder" && idx%3 == 1
 	return core.MkCase(d.id, kind, idx, seed, tier, dc)
 }
 
@@ -533,6 +534,8 @@ func (p *c18prop) Gen(kind string, idx int64, seed int64, tier string) core.Case
 				dc.Ops[i] = DOp{K: "flush"}
 			}
 		}
+		dc.Rich = idx%3 == 1
+		dc.Rich = idx%3 == 1
 		return core.MkCase(p.id, kind, idx, seed, tier, dc)
 	}
 	w, b := geometry(r, idx)
@@ -653,7 +656,7 @@ func countWriterCalls(dc *DCase) int {
 	x.Fault = nil
 	r := &DRun{dc: &x, st: core.NewStats(), owned: map[string]bool{}}
 	r.w = &planWriter{}
-	d, err := lz.NewDecoder(r.w, cfgOf(&x))
+	d, err := lz.NewDecoder(x.writerFor(r.w), cfgOf(&x))
 	if err != nil {
 		return 0
 	}
@@ -674,7 +677,7 @@ func init() {
 	core.Register(&c18prop{base{id: "C18", level: "fault_enumeration",
 		rule:        "for every generated valid block stream (Decoder, small geometries, items that fit a flushed buffer) the fault-free run counts the writer calls N; then ALL single fault placements (call index i < min(N,40) x accepted in {0, 1, len/2, len-1, len}) and, for N <= 14, all double placements (i < j) x 4 acceptance pairs are executed, each with the retry protocol (retry Sequences[k:], Literals[l:] resp. p[n:] until success) followed by Flush; plus seeded random multi-fault plans; after every call the accepted bytes must be a prefix of the reference expansion, the error must be the injected one, and after the final Flush the writer holds the expansion exactly once; non-trivial iff the stream caused at least one writer call; distinct = distinct stream",
 		assumptions: []string{"the writer obeys the io.Writer contract (accepting fewer bytes implies a non-nil error)", "streams contain only items that fit a flushed buffer; other refusals are C07's business"},
-		mandatory:   []string{"single_fault_placements", "double_fault_placements", "calls_with_writer_fault", "retries", "flushes_verified"}}})
+		mandatory:   []string{"single_fault_placements", "double_fault_placements", "calls_with_writer_fault", "retries", "flushes_verified", "histories_with_flushable_writer"}}})
 }
 
 // ---------------------------------------------------------------- C07
